@@ -155,6 +155,6 @@ ASSUMPTIONS = {
         "verdicts are 'held on the executions observed': schedules are sampled (Go scheduler nondeterminism + seeded virtual delays + nemesis), not enumerated",
         "crash model: one store call is atomic and durable on return; in-memory harness disks stand in for real stores",
         "timing oracles are evaluated in synctest virtual time; the wall-clock watchdog only yields 'inconclusive'",
-        "only protocol version 3 / snapshot version 1 are exercised",
+        "protocol version 3 (and 2 in a fraction of the SIM executions), snapshot version 1",
     ],
 }
